@@ -610,6 +610,8 @@ class IPPO(MultiAgentRLAlgorithm):
         log_probs, rewards, dones, values = map(
             vectorize_experiences_by_agent, (log_probs, rewards, dones, values)
         )
+        # Stacked as (num_steps, num_agents, ...): read both before squeezing
+        num_steps, num_agents = rewards.size(0), rewards.size(1)
         log_probs = log_probs.squeeze()
         rewards = rewards.squeeze()
         dones = dones.squeeze()
@@ -620,7 +622,6 @@ class IPPO(MultiAgentRLAlgorithm):
         # Bootstrapping returns using GAE advantage estimation
         dones = dones.long()
         with torch.no_grad():
-            num_steps = rewards.size(0)
             rewards = rewards.reshape(num_steps, -1)
             dones = dones.reshape(num_steps, -1)
             values = values.reshape(num_steps, -1)
@@ -651,13 +652,19 @@ class IPPO(MultiAgentRLAlgorithm):
                     + self.gamma * self.gae_lambda * next_non_terminal * last_gae_lambda
                 )
 
-            advantages = advantages.reshape((-1,))
-            values = values.reshape((-1,))
+            # States and actions are batched agent by agent, so order the
+            # per-sample statistics (time-major after stacking) the same way
+            def agent_major(x: torch.Tensor) -> torch.Tensor:
+                x = x.reshape(num_steps, num_agents, -1)
+                return x.transpose(0, 1).reshape((-1,))
+
+            advantages = agent_major(advantages)
+            values = agent_major(values)
             returns = advantages + values
 
         states = concatenate_experiences_into_batches(states, obs_space)
         actions = concatenate_experiences_into_batches(actions, action_space)
-        log_probs = log_probs.reshape((-1,))
+        log_probs = agent_major(log_probs)
         experiences = (states, actions, log_probs, advantages, returns, values)
 
         # Move experiences to algo device
